@@ -324,7 +324,7 @@ def r03_3(ctx):
     r = Runner(idx, keep_real=("resolve_hybrid",))
     def rh_args():
         seq = EnumV("HybridSeqOrder", "EXEC_THEN_SET_VAL", None)
-        return [AObj("Hybrid", {"value_type": vt_case("th", True, 32), "seq_order": seq, "references_set": []}, label="hybrid", opaque=True)]
+        return [AObj("Hybrid", {"value_type": vt_case("th", True, 32), "seq_order": seq, "references_set": set()}, label="hybrid", opaque=True)]
     fi, outs = r.run("resolve_hybrid", rh_args, args_list=True)
     good = [o for o in outs if o.kind != "raise"]
     ctx.need(good, "resolve_hybrid has no non-raising path")
